@@ -92,7 +92,7 @@ func sources(ps pipeline.Plugins) []string {
 }
 
 func TestPropCanonicalSource(t *testing.T) {
-	ev.Check(t, 20000, 200000, func(t *rapid.T) {
+	ev.Check(t, 20000, 1000000, func(t *rapid.T) {
 		s := plug.Gen().Draw(t, "src")
 		var cfg any
 		switch rapid.IntRange(0, 3).Draw(t, "cfg") {
